@@ -24,6 +24,11 @@ REAL_WORDS = [0x7FFFFFFFFFFFFFFF, 0xFFFFFFFFFFFFFFFC, 0x7FFFFFFFFFFFFFFB, 0x0000
 REAL_WORDS_2 = [0x4100000000000000, 0xC100000000000000, 0x7F00000000000000, 0xFF00000000000000, 0x0100000000000000,
                 0x4000000000000001, 0x400FFFFFFFFFFFFF, 0x7F0FFFFFFFFFFFFF]
 
+# fourth seeded wave (C10-m11): words whose value is the double just below / just above a power of sixteen, at several exponents and
+# both signs (the writer's exponent estimate sits on the edge there: one step too high or too low changes the re-read value)
+REAL_WORDS_3 = [(sg << 63) | (e << 56) | m for e in (0x41, 0x40, 0x42, 0x3F, 0x48, 0x38, 0x01, 0x7F, 0x20, 0x60)
+                for m in (0xFFFFFFFFFFFFF8, 0xFFFFFFFFFFFFF0, 0x10000000000001, 0x10000000000000, 0x1FFFFFFFFFFFFF, 0x80000000000000) for sg in (0, 1)]
+
 def read_str_repaired():
     """textual marker, re-read from the source on every run: does GdsReader::read_str guard `data[len - 1]` with `len > 0`?
     (commit a280dfb). The verdict does not depend on it (a panic fails the property whatever the model says); it selects
@@ -195,7 +200,7 @@ def gen_cases(chk):
     add("wellformed_in_lib", in_lib(rec(0x36, 2, b"\0\1"), rec(0x37, 6, b"m1")))
     add("wellformed_in_lib", in_lib(rec(0x37, 6, b"m1"), rec(0x38, 0)))
     # 4. reals: special eight-byte words in UNITS / MAG / ANGLE (incl. the known class words)
-    for w in REAL_WORDS + REAL_WORDS_2:
+    for w in REAL_WORDS + REAL_WORDS_2 + REAL_WORDS_3:
         wb = w.to_bytes(8, "big")
         add("real_word", rec(0, 2, b"\0\3") + rec(1, 2, bytes(24)) + rec(2, 6, b"ab") + rec(3, 5, wb + wb) + rec(4, 0))
         add("real_word", in_text(rec(0x1A, 1, b"\x80\x06"), rec(0x1B, 5, wb)))
@@ -205,6 +210,16 @@ def gen_cases(chk):
         add("string_payload", rec(0, 2, b"\0\3") + rec(1, 2, bytes(24)) + rec(2, 6, pl) + rec(3, 5, bytes(16)) + rec(4, 0))
         add("string_payload", in_text(rec(0x19, 6, pl)))
         add("string_payload", in_boundary(rec(0x2B, 2, b"\0\1"), rec(0x2C, 6, pl)))
+    # 5a. long non-ASCII strings in every string record type, in every context (most are rejected there: the error value carries the
+    # record): 4-, 3- and 2-byte characters after 0..3 ASCII bytes, so that every byte offset below 300 falls inside a character in
+    # one of the variants (a reader that cuts a string at a byte offset - for a message, a preview, a limit - must cut on a boundary)
+    for rt in (0x02, 0x06, 0x12, 0x19, 0x1F, 0x20, 0x23, 0x2C, 0x37, 0x3A, 0x18, 0x1D, 0x27, 0x28):
+        for k, ch, n in ((0, "\U0001F600", 76), (1, "\U0001F600", 76), (2, "\U0001F600", 76), (3, "\U0001F600", 76), (0, "\u4e2d", 101), (1, "\u4e2d", 101), (2, "\u4e2d", 101), (0, "\u00e9", 151), (1, "\u00e9", 151)):
+            pl = b"a" * k + (ch * n).encode("utf8")
+            pl += b"\0" * (len(pl) % 2)
+            for ctx, nm in ctxs:
+                add("long_nonascii_string_in_" + nm, ctx(rec(rt, 6, pl)))
+            add("long_nonascii_string_in_lib", rec(0, 2, b"\0\3") + rec(1, 2, bytes(24)) + rec(rt, 6, pl) + rec(2, 6, b"ab") + rec(3, 5, bytes(16)) + rec(4, 0))
     for n in (0, 2, 4, 6, 10, 12, 14, 8, 16, 24):
         add("xy_len", in_struct(rec(8, 0), rec(0x0D, 2, b"\0\1"), rec(0x0E, 2, b"\0\2"), rec(0x10, 3, bytes(n)), rec(0x11, 0)))
         add("xy_len", in_struct(rec(0x0C, 0), rec(0x0D, 2, b"\0\1"), rec(0x16, 2, b"\0\2"), rec(0x10, 3, bytes(n)), rec(0x19, 6, b"tx"), rec(0x11, 0)))
